@@ -749,7 +749,12 @@ def _run(scn, full_log=False):
         # rule == key: the shrinker only keeps candidates that fail with the same *rule*, and a
         # violation must not drift into the class of another (possibly known) defect
         v = {"rule": key or rule, "key": key or rule, "msg": msg}
-        if umb is not None and rule.startswith("c08."):
+        if umb is not None and rule.startswith("c08.") and \
+                not (key or rule).endswith("incomplete_close_delimited_rst"):
+            # (a close-delimited body cut by RST is accepted with or without interim
+            # responses in front of it: IOStream reports ECONNRESET as a plain close.  The
+            # interim-stripped rerun does not always hit the same race, so that class is
+            # never filed under the interim umbrella.)
             v["umbrella"] = umb + rule[4:].split(".")[0]
         viol.append(v)
 
